@@ -5,6 +5,8 @@ import (
 	"go/token"
 	"go/types"
 
+	"golang.org/x/tools/go/packages"
+
 	"verifcheck/core"
 )
 
@@ -650,7 +652,59 @@ func digestValidatedAt(g *core.Graph, loc core.Loc, dp core.Path) bool {
 			}
 		}
 	}
+	// or: the true edge of <package-level regexp>.MatchString(digest), where every match of the
+	// constant pattern is at least 19 characters long (the [7:19] slices rely on that)
+	for _, a := range g.AtomsAt(loc) {
+		call, ok := ast.Unparen(a.Expr).(*ast.CallExpr)
+		if !ok || !a.Val || core.CalleeName(info, call) != "regexp.Regexp.MatchString" || len(call.Args) != 1 {
+			continue
+		}
+		if p := core.PathOf(info, call.Args[0]); !p.Valid() || p.Key() != dp.Key() {
+			continue
+		}
+		se, ok := ast.Unparen(call.Fun).(*ast.SelectorExpr)
+		if !ok {
+			continue
+		}
+		id, ok := ast.Unparen(se.X).(*ast.Ident)
+		if !ok {
+			continue
+		}
+		v, _ := info.Uses[id].(*types.Var)
+		if v == nil || v.Pkg() == nil || v.Parent() != v.Pkg().Scope() {
+			continue
+		}
+		init, ok := ast.Unparen(core.PackageVarInit(g.Fn.Pkg, v)).(*ast.CallExpr)
+		if !ok || core.CalleeName(info, init) != "regexp.MustCompile" {
+			continue
+		}
+		if pat, isS := core.ConstString(info, init.Args[0]); isS {
+			if n, okN := core.RegexMinLen(pat); okN && n >= 19 && len(packageVarStores(g.Fn.Pkg, v)) == 0 {
+				return true
+			}
+		}
+	}
 	return okPath && okNonEmpty
+}
+
+// packageVarStores lists assignments to a package-level variable outside its declaration.
+func packageVarStores(pkg *packages.Package, v *types.Var) []ast.Node {
+	var out []ast.Node
+	for _, f := range pkg.Syntax {
+		ast.Inspect(f, func(n ast.Node) bool {
+			as, ok := n.(*ast.AssignStmt)
+			if !ok {
+				return true
+			}
+			for _, l := range as.Lhs {
+				if id, isID := ast.Unparen(l).(*ast.Ident); isID && pkg.TypesInfo.Uses[id] == v {
+					out = append(out, as)
+				}
+			}
+			return true
+		})
+	}
+	return out
 }
 
 // constSliceGuarded: s[c1:c2] with constant bounds.
